@@ -1,24 +1,26 @@
 (* C10 - the inventory obligations on the generated tables of Gen/SetSites.v (definitions only).
-   [site_accounted]: a site whose iteration order reaches its consumer (class 0) must be one of the
-   sites modelled in Lang/Order.v; [mstate_accounted]: a module-level object may be mutated by a
+   [site_accounted]: no set iteration of the source may let its order reach the consumer (class 0) - every one is
+   wrapped in sorted() (class 1) or feeds an order-insensitive consumer (class 2).  (While F-C10-promotion-order was
+   open, the class-0 sites `new_names` of _promote_branch_decls and `promoted_set` of _parse_simple_lines were excused
+   as "modelled"; the repair wrapped them in sorted(), they are now required to be class 1, see below.) [mstate_accounted]: a module-level object may be mutated by a
    function only if it is the verification hook's own log (written only under REDUINO_VERIF=1, never read). *)
 From Coq Require Import ZArith List Bool String.
 From RV Require Import Base.Wire Base.Text Lang.Order Lang.DevSession Gen.SetSites.
 Import ListNotations.
 Open Scope Z_scope.
 
-Definition site_modelled (s : site) : bool :=
-  existsb (fun m => text_eqb (s_fn s) (fst m) && text_eqb (s_iter s) (snd m)) modelled_sites.
-
-Definition site_accounted (s : site) : bool := negb (s_class s =? 0) || site_modelled s.
+Definition site_accounted (s : site) : bool := negb (s_class s =? 0).
 
 Definition hook_log : text := txt "_VERIF_IGNORED"%string.
 
 Definition mstate_accounted (m : mstate) : bool := negb (m_mutated m) || text_eqb (m_name m) hook_log.
 
-(* the sorted() sites named by the property: (file, function, iterable) *)
+(* the sorted() sites named by the property, and the ones of the repair of F-C10-promotion-order (the two `new_names` loops
+   of _promote_branch_decls, the `promoted_set` loops of the while and for handlers): (file, function, iterable) *)
 Definition required_sorted_sites : list (text * text * text) :=
-  [ (txt "parser.py"%string, txt "parse"%string, txt "ctx.get('lcd_tick_names', set())"%string);
+  [ (txt "parser.py"%string, txt "_promote_branch_decls"%string, txt "new_names"%string);
+    (txt "parser.py"%string, txt "_parse_simple_lines"%string, txt "promoted_set"%string);
+    (txt "parser.py"%string, txt "parse"%string, txt "ctx.get('lcd_tick_names', set())"%string);
     (txt "parser.py"%string, txt "parse"%string, txt "ctx.get('button_poll_names', set())"%string);
     (txt "emitter.py"%string, txt "emit"%string, txt "ultrasonic_measurements"%string) ].
 
